@@ -197,18 +197,27 @@ theorem c10_rt_pred (i : C10.RtInput) : C10.rtOk i (rtModel i) = true := by
 
 /-- non-vacuity: SPS, PPS (4-byte codes), IDR in one buffer at MTU 5 — the STAP-A does not fit, the
     IDR is fragmented; then the same units with SPS and PPS in calls of their own at MTU 1200 -/
-example : (C10.RtInput.wf { disable := false, avc := false, calls :=
-    [{ mtu := 5, bare := false, units := [(true, [0x67, 1, 2]), (true, [0x68, 3]), (false, [0x65, 1, 2, 3, 4, 5, 6])] },
-     { mtu := 1200, bare := true, units := [(false, [0x67, 1, 2])] },
-     { mtu := 1200, bare := true, units := [(false, [0x68, 3])] },
-     { mtu := 1200, bare := false, units := [(false, [0x09, 0x10]), (true, [0x41, 7])] }] }) = true := by
-  decide
-example : payloads false
-    [{ mtu := 5, bare := false, units := [(true, [0x67, 1, 2]), (true, [0x68, 3]), (false, [0x65, 1, 2, 3, 4, 5, 6])] },
-     { mtu := 1200, bare := true, units := [(false, [0x67, 1, 2])] },
-     { mtu := 1200, bare := true, units := [(false, [0x68, 3])] },
-     { mtu := 1200, bare := false, units := [(false, [0x09, 0x10]), (true, [0x41, 7])] }] =
+def exampleCalls : List C10.RtCall :=
+  [{ mtu := 5, bare := false, units := [(true, [0x67, 1, 2]), (true, [0x68, 3]), (false, [0x65, 1, 2, 3, 4, 5, 6])] },
+   { mtu := 1200, bare := true, units := [(false, [0x67, 1, 2])] },
+   { mtu := 1200, bare := true, units := [(false, [0x68, 3])] },
+   { mtu := 1200, bare := false, units := [(false, [0x09, 0x10]), (true, [0x41, 7])] }]
+
+example : (C10.RtInput.wf { disable := false, avc := false, calls := exampleCalls }) = true := by decide
+example : HistWF exampleCalls :=
+  callWF_of_wf { disable := false, avc := false, calls := exampleCalls } (by decide)
+example : paired (exampleCalls.flatMap C10.RtCall.nals) = true := by decide
+example : payloads false exampleCalls =
     [[0x67, 1, 2], [0x68, 3], [0x7C, 0x85, 1, 2, 3], [0x7C, 0x45, 4, 5, 6],
      [0x78, 0, 3, 0x67, 1, 2, 0, 2, 0x68, 3], [0x41, 7]] := by decide +kernel
+
+/-- why MTU ≥ 3 is a hypothesis: at MTU 2 a 3-byte unit cannot be sent at all (FU-A needs 2 header
+    bytes plus at least one payload byte) and the code drops it silently -/
+example : (payload false 2 {} [0, 0, 1, 0x65, 1, 2]).1 = [] := by decide +kernel
+
+/-- why "pairs followed by a unit" is a hypothesis of c10_lossless: a lone SPS waits for a PPS, so
+    the unit after it overtakes it (`holdback` says exactly that) -/
+example : holdback none none [[0x67, 1], [0x65, 2], [0x68, 3], [0x41, 4]] =
+    [[0x65, 2], [0x67, 1], [0x68, 3], [0x41, 4]] := by decide
 
 end Rtp.Props.C10
